@@ -46,7 +46,15 @@ func runC16(c *core.Ctx) {
 			if g == nil || !p.InRepo(g) || len(call.Call.Args) != 3 {
 				return
 			}
-			impls = append(impls, g)
+			dup := false
+			for _, h := range impls {
+				if h == g {
+					dup = true
+				}
+			}
+			if !dup {
+				impls = append(impls, g)
+			}
 			// worker argument
 			w := call.Call.Args[2]
 			if !c16workerOK(pm, w) {
